@@ -48,6 +48,21 @@ def cip_task(u, tt, pol):
                 defs=defs(u), native=native, harness_pre="  G_z = z;", timeout=900, group="%s %s" % (tt, pol), stubs=ST,
                 reach=[("answer true", "res"), ("answer false", "!res")])
 
+def box_cip_tasks(tier):
+    """Box<ITV>::contains_integer_point() on the box unit of check C03 (dimension <= 2: bounded)"""
+    import C03
+    units = []; T = []
+    for (tt, pol) in ([("s8", "nat"), ("s8", "rat")] if tier == "quick" else [(t, p) for t in ("s8", "s32") for p in ("nat", "rat")]):
+        u = C03.box_unit(tt, pol, prop="C17"); units.append(u)
+        for d in (1, 2):
+            bound = {"unwind": d + 2, "note": "space dimension %d; interval bounds, special/open bits and status flags arbitrary; loops unwound with unwinding assertions" % d}
+            T.append(Task("box/%s/%s/contains_integer_point/dim%d" % (tt, pol, d), u, "FN_b_contains_integer_point", ["C17/box_int.h"], C03.box_vars(),
+                          "_Bool r = FN_b_contains_integer_point(&G_bx)", bounded=bound, timeout=1800, object_bits=9,
+                          defs={"BOX_D": d, "GHOST_RANGE": "((ex_t)%d)" % (1 << (u.defs["T_W"] + 1))}, split_post=True,
+                          stubs=["c12_ghost.c", "c17_ghost.c", "c03_box.c"], harness_pre=C03.BOX_SETUP, group="box %s %s" % (tt, pol),
+                          reach=[("answer true", "r"), ("answer false on an unmarked box", "!r && !(fx & BST_EMPTY)")]))
+    return units, T
+
 def build(tier):
     units = []; tasks = []
     combos = [("s8", "nat"), ("s8", "rat"), ("s16", "rat")] if tier == "quick" else [(t, p) for t in ("s8", "s16", "s32", "s64", "u8") for p in ("nat", "rat")]
@@ -55,6 +70,7 @@ def build(tier):
         u = unit_for(tt, pol); units.append(u)
         for width in (8, 16, 32, 64, 128): tasks.append(wrap_task(u, tt, pol, width))
         tasks.append(drop_task(u, tt, pol)); tasks.append(cip_task(u, tt, pol))
+    bu, bt = box_cip_tasks(tier); units += bu; tasks += bt
     return units, tasks
 
 def main(tier, only=None):
